@@ -468,3 +468,58 @@ func (ex *Exec) dependsOn(bytes, v Value) bool {
 	}
 	return false
 }
+
+// ---------- environment redirects ----------
+//
+// Calls of these standard-library functions are executed, under the executor, by the
+// environment models of /verif/harness/zzvf/env.go (ghost file system, log.Logger model).
+// The models are ordinary Go code and go through the same symbolic execution; natively
+// nothing is redirected (the replay runs against the real operating system).
+
+var redirects = map[string]string{
+	"os.Stat": "GfsStat", "os.Lstat": "GfsStat", "os.IsNotExist": "GfsIsNotExist", "os.IsExist": "GfsIsExist",
+	"os.Mkdir": "GfsMkdir", "os.MkdirAll": "GfsMkdirAll", "os.OpenFile": "GfsOpenFile", "os.Open": "GfsOpen", "os.Create": "GfsCreate",
+	"os.Remove": "GfsRemove", "os.Rename": "GfsRename", "os.ReadFile": "GfsReadFile", "os.WriteFile": "GfsWriteFile", "os.Chtimes": "GfsChtimes",
+	"io/ioutil.ReadDir": "GfsReadDir", "io/ioutil.ReadFile": "GfsReadFile", "io/ioutil.WriteFile": "GfsWriteFile",
+	"(*os.File).Name": "GFile.Name", "(*os.File).Write": "GFile.Write", "(*os.File).WriteString": "GFile.WriteString", "(*os.File).Read": "GFile.Read",
+	"(*os.File).ReadAt": "GFile.ReadAt", "(*os.File).Seek": "GFile.Seek", "(*os.File).Truncate": "GFile.Truncate", "(*os.File).Sync": "GFile.Sync",
+	"(*os.File).Close": "GFile.Close", "(*os.File).Stat": "GFile.Stat",
+	"log.New": "GlogNew", "(*log.Logger).SetOutput": "GLogger.SetOutput", "(*log.Logger).SetFlags": "GLogger.SetFlags", "(*log.Logger).SetPrefix": "GLogger.SetPrefix",
+	"(*log.Logger).Flags": "GLogger.Flags", "(*log.Logger).Prefix": "GLogger.Prefix", "(*log.Logger).Writer": "GLogger.Writer",
+	"(*log.Logger).Println": "GLogger.Println", "(*log.Logger).Print": "GLogger.Print", "(*log.Logger).Printf": "GLogger.Printf", "(*log.Logger).Output": "GLogger.Output",
+}
+
+type redirKey struct{ fn *ssa.Function }
+
+func (P *Program) redirectFor(fn *ssa.Function) *ssa.Function {
+	if fn.Pkg == nil {
+		return nil
+	}
+	switch fn.Pkg.Pkg.Path() {
+	case "os", "io/ioutil", "log":
+	default:
+		return nil
+	}
+	if v, ok := P.finfo.Load(redirKey{fn}); ok {
+		t, _ := v.(*ssa.Function)
+		return t
+	}
+	var tgt *ssa.Function
+	if name, ok := redirects[fn.String()]; ok {
+		if zp := P.prog.ImportedPackage(repoMod + "/zzvf"); zp != nil {
+			if i := strings.Index(name, "."); i > 0 {
+				if tp := zp.Type(name[:i]); tp != nil {
+					tgt = P.prog.LookupMethod(types.NewPointer(tp.Type()), zp.Pkg, name[i+1:])
+				}
+			} else {
+				tgt = zp.Func(name)
+			}
+		}
+	}
+	if tgt == nil {
+		P.finfo.Store(redirKey{fn}, false)
+		return nil
+	}
+	P.finfo.Store(redirKey{fn}, tgt)
+	return tgt
+}
